@@ -767,15 +767,20 @@ macro_rules! with_robdd {
 
 /// run a history on a fresh builder; the builder is dropped afterwards, so the
 /// result carries no pointers
+/// wide regimes (a label map is set): dense variable i is label map[i]; the returned builder
+/// configuration has an order that covers every label up to the largest, in which the dense
+/// variables keep the relative order cfg.order (recorded in WIDE_FULL for exec_history)
+pub fn wide_setup(cfg: &HistCfg) -> Option<HistCfg> {
+    crate::gen::label_map()?;
+    crate::gen::fit_label_map(cfg.n0);
+    let full = crate::gen::full_label_order_det(&cfg.order);
+    WIDE_FULL.with(|f| *f.borrow_mut() = Some(full.clone()));
+    Some(HistCfg { n0: full.len(), order: full, ..cfg.clone() })
+}
+
 pub fn run_history(ctx: &mut Ctx, cfg: &HistCfg, ops: &[Op], checks: &Checks) -> HistStats {
-    if crate::gen::label_map().is_some() {
-        // wide: dense variable i is label map[i]; the builder's order covers every label up to
-        // the largest, the dense variables keep the relative order cfg.order
-        crate::gen::fit_label_map(cfg.n0);
+    if let Some(bcfg) = wide_setup(cfg) {
         let saved = crate::gen::label_map();
-        let full = crate::gen::full_label_order_det(&cfg.order);
-        WIDE_FULL.with(|f| *f.borrow_mut() = Some(full.clone()));
-        let bcfg = HistCfg { n0: full.len(), order: full, ..cfg.clone() };
         let r = with_robdd!(bcfg, b, {
             let r = exec_history(ctx, cfg, b, ops, checks);
             HistStats { canon: r.canon, grows: r.grows, lru_grows: r.lru_grows, lru_conflicts: r.lru_conflicts, nodes: r.nodes }
